@@ -3,6 +3,7 @@ package consh
 import (
 	"context"
 	"fmt"
+	"os"
 	"runtime"
 	"sort"
 	"strings"
@@ -339,6 +340,7 @@ func bbDescribe(vp base.Voteproof, c *common.Cluster) string {
 }
 
 type bbState struct {
+	focusC06   bool
 	w          *bbWorld
 	box        *isaacstates.Ballotbox
 	deliveredP map[string]bool            // stage points some ballot was delivered for
@@ -380,6 +382,11 @@ func (s *bbState) drain() {
 // judge applies the four clauses of C04 to one emitted voteproof.
 func (s *bbState) judge(vp base.Voteproof) {
 	r := s.w.r
+
+	if s.focusC06 { // this run is a population of the C06 check: C04's clauses are the C04 check's business
+		return
+	}
+
 	r.Checked()
 
 	pk := vp.Point().String()
@@ -463,7 +470,8 @@ func bbRun(r *simkit.Run, c05 bool) {
 	runtime.GC()
 
 	w := bbBuild(r)
-	s := &bbState{
+	focusC06 := os.Getenv("VERIF_FOCUS") == "C06"
+	s := &bbState{focusC06: focusC06,
 		w: w, deliveredP: map[string]bool{}, deliveredS: map[string]map[string]bool{}, embedded: map[string]base.Voteproof{},
 		sufCalls: map[base.Height]int{}, sufErrAt: -1,
 	}
@@ -603,82 +611,108 @@ func bbRun(r *simkit.Run, c05 bool) {
 			cs := cs
 
 			r.Guard("control", func() {
-			switch cs.kind {
-			case 0:
-				box.Count()
-				r.Event("count")
-			case 1:
-				lp, _ := isaac.NewLastPoint(pt, r.Chance(1, 2), false)
-				ok := box.SetLastPoint(lp)
-				r.Event(fmt.Sprintf("setlastpoint %s -> %v", pt, ok))
-			case 2:
-				_, _, _ = box.MissingNodes(pt)
-			case 3:
-				_ = box.Voted(pt, nil)
-			case 4:
-				time.Sleep(time.Duration(1+r.Choose(6000)) * time.Millisecond)
-			case 5:
-				if c5 != nil {
-					c5.harnessClean()
-				} else {
+				switch cs.kind {
+				case 0:
 					box.Count()
-				}
-			case 6:
-				// what the stuck resolver does: expel exactly the nodes that have not voted for the point
-				missing, found, err := box.MissingNodes(pt)
-				if err != nil || !found || len(missing) < 1 || len(missing) >= w.n {
-					return
-				}
+					r.Event("count")
+				case 1:
+					lp, _ := isaac.NewLastPoint(pt, r.Chance(1, 2), false)
+					ok := box.SetLastPoint(lp)
+					r.Event(fmt.Sprintf("setlastpoint %s -> %v", pt, ok))
+				case 2:
+					_, _, _ = box.MissingNodes(pt)
+				case 3:
+					_ = box.Voted(pt, nil)
+				case 4:
+					time.Sleep(time.Duration(1+r.Choose(6000)) * time.Millisecond)
+				case 5:
+					if c5 != nil {
+						c5.harnessClean()
+					} else {
+						box.Count()
+					}
+				case 6:
+					// what the stuck resolver does: expel exactly the nodes that have not voted for the point
+					missing, found, err := box.MissingNodes(pt)
+					if err != nil || !found || len(missing) < 1 || len(missing) >= w.n {
+						return
+					}
 
-				// MissingNodes never names the local node (a node votes its own ballot first); keep to that situation
-				if len(box.Voted(pt, []base.Address{w.c.Nodes[0].Address()})) < 1 {
-					return
-				}
+					// MissingNodes never names the local node (a node votes its own ballot first); keep to that situation
+					if len(box.Voted(pt, []base.Address{w.c.Nodes[0].Address()})) < 1 {
+						return
+					}
 
-				// the expels that gathered enough signatures may cover only some of the missing nodes
-				// (SuffrageVoting.Find answers with what it has); a node whose ballot has not arrived here
-				// can still have signed the expel of another node
-				if cs.some > 0 && len(missing) > 1 {
-					missing = missing[:1+(cs.some-1)%(len(missing)-1)]
-					r.Probe("stuck_with_expels_of_some_missing_nodes")
-				}
+					// the expels that gathered enough signatures may cover only some of the missing nodes
+					// (SuffrageVoting.Find answers with what it has); a node whose ballot has not arrived here
+					// can still have signed the expel of another node
+					if cs.some > 0 && len(missing) > 1 {
+						missing = missing[:1+(cs.some-1)%(len(missing)-1)]
+						r.Probe("stuck_with_expels_of_some_missing_nodes")
+					}
 
-				var signers []base.LocalNode
+					var signers []base.LocalNode
 
-				for _, nd := range w.c.Nodes {
-					miss := false
+					for _, nd := range w.c.Nodes {
+						miss := false
 
-					for _, m := range missing {
-						if m.Equal(nd.Address()) {
-							miss = true
+						for _, m := range missing {
+							if m.Equal(nd.Address()) {
+								miss = true
+							}
+						}
+
+						if !miss {
+							signers = append(signers, nd)
 						}
 					}
 
-					if !miss {
-						signers = append(signers, nd)
+					var expels []base.SuffrageExpelOperation
+					for _, m := range missing {
+						expels = append(expels, w.c.Expel(m, pt.Height(), pt.Height(), signers))
+					}
+
+					vp, err := box.StuckVoteproof(pt, expels)
+					if err == nil && vp != nil {
+						r.Event("stuck voteproof for " + pt.String())
+						s.judge(vp)
 					}
 				}
-
-				var expels []base.SuffrageExpelOperation
-				for _, m := range missing {
-					expels = append(expels, w.c.Expel(m, pt.Height(), pt.Height(), signers))
-				}
-
-				vp, err := box.StuckVoteproof(pt, expels)
-				if err == nil && vp != nil {
-					r.Event("stuck voteproof for " + pt.String())
-					s.judge(vp)
-				}
-			}
 			})
 		}
 	})
+
+	// C06 over the positions the ballotbox takes on its own while it votes and counts (population of the C06 check)
+	lastPos := pos{zero: true}
+
+	var posHistory []string
+
+	watchPosition := func() {
+		if !focusC06 {
+			return
+		}
+
+		cur := posOfLastPoint(box.LastPoint())
+		if cur == lastPos {
+			return
+		}
+
+		r.Checked()
+		posHistory = append(posHistory, cur.String())
+
+		if why, bad := illegalMove(lastPos, cur); bad {
+			r.Fail("illegal-move", why, "the last point of the ballotbox moved %s -> %s (%s) while voting and counting; history: %v", lastPos, cur, why, posHistory)
+		}
+
+		lastPos = cur
+	}
 
 	r.Sched(simkit.SchedOpts{
 		MaxSteps: 400000, Stick: r.DrawStick(), ClockDen: 40, MaxSim: 2 * time.Minute,
 		Quanta: []time.Duration{10 * time.Millisecond, 60 * time.Millisecond, time.Second, 6 * time.Second},
 		Invariant: func() {
 			s.drain()
+			watchPosition()
 
 			if c5 != nil {
 				c5.check()
@@ -722,11 +756,11 @@ func bbRun(r *simkit.Run, c05 bool) {
 
 func init() {
 	simkit.Register(&simkit.Harness{
-		ID:   "C04",
-		Run:  func(r *simkit.Run) { bbRun(r, false) },
-		Real: []string{"isaacstates.Ballotbox (Vote, Count, SetLastPoint, StuckVoteproof paths via count, MissingNodes, Voted, ticker)", "voterecords", "isaac.IsValidVoteproofWithSuffrage", "base.IsValidVoteproof", "ballot/voteproof/expel types, secp256k1 signatures"},
-		Stub: []string{"suffrage lookup (harness function that can answer not-found-yet or fail)", "ballots are signed by the harness with the remote nodes' keys and pass Ballot.IsValid before delivery, as launch does"},
-		Rule: "each run draws a suffrage of 1-5 nodes, a threshold (67/75/100), 1-4 consecutive stage points (h33r0 INIT, h33r0 ACCEPT, h33r1 INIT after a draw, h34r0 INIT), honest and conflicting facts, nodes sending two ballots, ballots with expels and suffrage-confirm ballots over an expel voteproof, embedded voteproofs (majority and draw), duplicated deliveries in tape-chosen order by 1-4 concurrent voter tasks, a control task (Count, SetLastPoint, MissingNodes, Voted, sleeps, and the stuck resolver's step: MissingNodes, then StuckVoteproof with valid expels of all or of only some of the nodes named missing; the returned voteproof is judged like an emitted one), the box's ticker on the fake clock, and a suffrage lookup that is unknown for the first k calls or fails. Every voteproof received from Voteproof() is judged by the four clauses of the statement with an independent recount. distinct = event-log hash",
+		ID:          "C04",
+		Run:         func(r *simkit.Run) { bbRun(r, false) },
+		Real:        []string{"isaacstates.Ballotbox (Vote, Count, SetLastPoint, StuckVoteproof paths via count, MissingNodes, Voted, ticker)", "voterecords", "isaac.IsValidVoteproofWithSuffrage", "base.IsValidVoteproof", "ballot/voteproof/expel types, secp256k1 signatures"},
+		Stub:        []string{"suffrage lookup (harness function that can answer not-found-yet or fail)", "ballots are signed by the harness with the remote nodes' keys and pass Ballot.IsValid before delivery, as launch does"},
+		Rule:        "each run draws a suffrage of 1-5 nodes, a threshold (67/75/100), 1-4 consecutive stage points (h33r0 INIT, h33r0 ACCEPT, h33r1 INIT after a draw, h34r0 INIT), honest and conflicting facts, nodes sending two ballots, ballots with expels and suffrage-confirm ballots over an expel voteproof, embedded voteproofs (majority and draw), duplicated deliveries in tape-chosen order by 1-4 concurrent voter tasks, a control task (Count, SetLastPoint, MissingNodes, Voted, sleeps, and the stuck resolver's step: MissingNodes, then StuckVoteproof with valid expels of all or of only some of the nodes named missing; the returned voteproof is judged like an emitted one), the box's ticker on the fake clock, and a suffrage lookup that is unknown for the first k calls or fails. Every voteproof received from Voteproof() is judged by the four clauses of the statement with an independent recount. distinct = event-log hash",
 		Assumptions: []string{"the required vote count in the recount comes from base.Threshold.Threshold (subject of C02)", "ballots reach Vote only if Ballot.IsValid(networkID) passes, as in launch"},
 	})
 }
